@@ -46,6 +46,10 @@ pub enum Via {
     Assert,
     /// the call defines a constant that nothing uses
     UnusedConst,
+    /// the start of the range is written as the difference of two labels
+    /// declared *after* the call, around `start` zero bytes: its value is only
+    /// known once the addresses have settled
+    LabelRange,
 }
 
 #[derive(Clone, Debug, PartialEq, Eq, Serialize, Deserialize)]
@@ -55,6 +59,10 @@ pub enum Item {
     /// `#if true { #include "…" }` — an inclusion inside a conditional block
     IfInclude(String),
     IncFn { kind: IncKind, spelling: String, start: Option<usize>, len: Option<usize>, via: Via },
+    /// a label declaration (global `g<id>:` or local `.l<id>:`): two splices
+    /// of one file are two declarations, each under the global label that
+    /// precedes its own splice point
+    Label { local: bool, id: u8 },
 }
 
 #[derive(Clone, Debug, PartialEq, Eq, Serialize, Deserialize)]
@@ -136,6 +144,7 @@ impl Case {
                     Item::Marker(b) => t.push_str(&format!("#d8 {}\n", b)),
                     Item::Include(sp) => t.push_str(&format!("#include \"{}\"\n", esc(sp))),
                     Item::IfInclude(sp) => t.push_str(&format!("#if true\n{{\n    #include \"{}\"\n}}\n", esc(sp))),
+                    Item::Label { local, id } => t.push_str(&if *local { format!(".l{}:\n", id) } else { format!("g{}:\n", id) }),
                     Item::IncFn { kind, spelling, start, len, via } => {
                         let fname = match kind {
                             IncKind::Incbin => "incbin",
@@ -143,8 +152,13 @@ impl Case {
                             IncKind::Inchexstr => "inchexstr",
                         };
                         let mut call = format!("{}(\"{}\"", fname, esc(spelling));
+                        let k = counter;
                         if let Some(s) = start {
-                            call.push_str(&format!(", {}", s));
+                            if *via == Via::LabelRange {
+                                call.push_str(&format!(", lr{}_b - lr{}_a", k, k));
+                            } else {
+                                call.push_str(&format!(", {}", s));
+                            }
                         }
                         if let Some(l) = len {
                             if start.is_none() {
@@ -153,10 +167,19 @@ impl Case {
                             call.push_str(&format!(", {}", l));
                         }
                         call.push(')');
-                        let k = counter;
                         counter += 1;
                         match via {
                             Via::Direct => t.push_str(&format!("#d {}\n", call)),
+                            Via::LabelRange => {
+                                t.push_str(&format!("#d {}\n", call));
+                                if let Some(s) = start {
+                                    t.push_str(&format!("lr{}_a:\n", k));
+                                    for _ in 0..*s {
+                                        t.push_str("#d8 0\n");
+                                    }
+                                    t.push_str(&format!("lr{}_b:\n", k));
+                                }
+                            }
                             Via::Assert => t.push_str(&format!("#assert sizeof({}) >= 0\n", call)),
                             Via::UnusedConst => t.push_str(&format!("unused{} = {}\n", k, call)),
                             Via::ConstPath => {
@@ -302,7 +325,56 @@ pub fn draw_spelling(rng: &mut Rng, from: &str, target: &str, is_data: bool, std
     }
 }
 
+/// A chain of 55–80 files, each including the next (deeper than any bound a
+/// recursion guard might reuse from elsewhere), optionally closed into a cycle.
+fn long_chain_case(rng: &mut Rng) -> Case {
+    let n = rng.range(55, 80);
+    let cyclic = rng.chance(1, 4);
+    let mut files: Vec<CFile> = Vec::new();
+    let path = |k: usize| if k == 0 { "main.asm".to_string() } else { format!("chain/f{}.asm", k) };
+    for k in 0..n {
+        let mut items = vec![Item::Marker((k % 200) as u8 + 1)];
+        if k + 1 < n {
+            items.push(Item::Include(rel_spelling(&path(k), &path(k + 1))));
+        } else if cyclic {
+            items.push(Item::Include(rel_spelling(&path(k), &path(rng.below(n)))));
+        }
+        if rng.chance(1, 3) {
+            items.push(Item::Marker(0xF0));
+        }
+        files.push(CFile { path: path(k), once: false, items, once_pos: 0 });
+    }
+    Case { files, data: vec![], roots: vec!["main.asm".to_string()], defs_path: None, std_dir: false, fault: None }
+}
+
+/// One file spliced two or three times, each time under another global
+/// label, declaring local labels of its own: every splice is a declaration.
+fn twice_included_labels_case(rng: &mut Rng) -> Case {
+    let inc = rng.pick(&["part.asm", "lib/part.asm", "a/b/part.asm"]).to_string();
+    let mut main = CFile { path: "main.asm".to_string(), once: false, items: vec![], once_pos: 0 };
+    let times = rng.range(2, 3);
+    for t in 0..times {
+        main.items.push(Item::Label { local: false, id: t as u8 + 1 });
+        if rng.chance(1, 2) {
+            main.items.push(Item::Marker(0x20 + t as u8));
+        }
+        main.items.push(Item::Include(rel_spelling("main.asm", &inc)));
+    }
+    let mut part = CFile { path: inc, once: false, items: vec![], once_pos: 0 };
+    for l in 0..rng.range(1, 3) {
+        part.items.push(Item::Label { local: true, id: 0x40 + l as u8 });
+        part.items.push(Item::Marker(0x50 + l as u8));
+    }
+    Case { files: vec![main, part], data: vec![], roots: vec!["main.asm".to_string()], defs_path: None, std_dir: false, fault: None }
+}
+
 pub fn draw_case(rng: &mut Rng) -> Case {
+    if rng.chance(1, 150) {
+        return long_chain_case(rng);
+    }
+    if rng.chance(1, 40) {
+        return twice_included_labels_case(rng);
+    }
     let clean = rng.chance(1, 2);
     let dirs = ["", "", "lib/", "src/", "lib/deep/", "a/b/c/"];
     let nfiles = rng.range(1, 6);
@@ -393,6 +465,12 @@ pub fn draw_case(rng: &mut Rng) -> Case {
         for _ in 0..nitems {
             match rng.below(10) {
                 0..=2 => {
+                    if rng.chance(1, 5) {
+                        // a label: global in the including files mostly,
+                        // local in the included ones
+                        let local = if i == 0 { rng.chance(1, 4) } else { rng.chance(3, 4) };
+                        items.push(Item::Label { local, id: marker });
+                    }
                     items.push(Item::Marker(marker));
                     marker = marker.wrapping_add(1);
                 }
@@ -421,9 +499,11 @@ pub fn draw_case(rng: &mut Rng) -> Case {
                         Some("bits") => IncKind::Incbinstr,
                         _ => IncKind::Inchexstr,
                     };
-                    let via = if defs_path.is_some() { *rng.pick(&[Via::Direct, Via::Rule, Via::Fn, Via::AsmBlock, Via::Fn, Via::Arg, Via::NestedArg, Via::ConstPath, Via::Assert, Via::UnusedConst]) } else { *rng.pick(&[Via::Direct, Via::Direct, Via::ConstPath, Via::Assert, Via::UnusedConst]) };
+                    let via = if defs_path.is_some() { *rng.pick(&[Via::Direct, Via::Rule, Via::Fn, Via::AsmBlock, Via::Fn, Via::Arg, Via::NestedArg, Via::ConstPath, Via::Assert, Via::UnusedConst, Via::LabelRange]) } else { *rng.pick(&[Via::Direct, Via::Direct, Via::ConstPath, Via::Assert, Via::UnusedConst, Via::LabelRange]) };
+                    // (label arithmetic needs byte-sized data and a valid range)
+                    let via = if via == Via::LabelRange && !(clean && kind == IncKind::Incbin) { Via::Direct } else { via };
                     let container = match via {
-                        Via::Direct | Via::Arg | Via::NestedArg | Via::ConstPath | Via::Assert | Via::UnusedConst => files[i].path.clone(),
+                        Via::Direct | Via::Arg | Via::NestedArg | Via::ConstPath | Via::Assert | Via::UnusedConst | Via::LabelRange => files[i].path.clone(),
                         _ => defs_path.clone().unwrap(),
                     };
                     let spelling = draw_spelling(rng, &container, &data[d].path, true, std_dir, clean);
@@ -683,6 +763,19 @@ fn exec_case(ctx: &mut Ctx, case: &Case, verif: &str, out: &mut Vec<Replay>) {
         Expected::Unspecified(_) => "expected_unspecified",
     });
     ctx.stats.inc(if matches!(rec.outcome, Outcome::Ok) { "actual_success" } else { "actual_failure" });
+    // reach of the rarer shapes, counted only where the model commits itself
+    if !matches!(m.expected, Expected::Unspecified(_)) && case.fault.is_none() {
+        let has = |f: &dyn Fn(&Item) -> bool| case.files.iter().any(|cf| cf.items.iter().any(|i| f(i)));
+        if has(&|i| matches!(i, Item::IncFn { via: Via::LabelRange, start: Some(_), .. })) {
+            ctx.stats.inc("decided_with_range_from_labels");
+        }
+        if has(&|i| matches!(i, Item::Label { local: true, .. })) && m.expansions.values().any(|n| *n > 1) {
+            ctx.stats.inc("decided_with_local_labels_in_respliced_file");
+        }
+        if case.files.len() >= 50 {
+            ctx.stats.inc("decided_with_chain_over_50_files");
+        }
+    }
     if case.fault.is_some() {
         ctx.stats.inc("fault_configured");
         if rec.fired.iter().any(|n| *n > 0) {
